@@ -60,6 +60,13 @@ V_NONDET_FN(uint32_t); V_NONDET_FN(int32_t); V_NONDET_FN(ptrdiff_t);
 #define __CPROVER_assigns(...)
 #define __CPROVER_frees(...)
 #define V_NONDET_FN(T) struct v_unused_##T
+/* CBMC primitives used inside stubs: not checkable natively (the sanitizers stand in) */
+#define __CPROVER_w_ok(p, n) 1
+#define __CPROVER_r_ok(p, n) 1
+#define __CPROVER_rw_ok(p, n) 1
+#define __CPROVER_havoc_slice(p, n) ((void)0)
+#define __CPROVER_havoc_object(p) ((void)0)
+#define __CPROVER_same_object(a, b) 1
 long long v_next(const char *name);          /* replay_values.h */
 void v_violation(const char *kind, const char *msg, const char *file, int line);
 void v_assume_failed(const char *cond, const char *file, int line);
@@ -75,5 +82,12 @@ void v_stop(void);
 #define V_UNREACHABLE_STUB(msg) v_violation("unexpected-call", msg, __FILE__, __LINE__)
 #define V_STOP() v_stop()
 #endif
+
+/* string equality for stubs (literal apply names): plain loop, terminates on concrete strings */
+static inline int v_streq(const char *a, const char *b) {
+  if (!a || !b) return 0;
+  for (int i = 0; i < 64; i++) { if (a[i] != b[i]) return 0; if (!a[i]) return 1; }
+  return 0;
+}
 
 #endif
